@@ -73,6 +73,10 @@ SITE_OF = [("dropout/", "nn/layers.py Dropout.forward"), ("split", "nn/utils/dat
 def site_of(item):
     parts = item.split("/", 1)
     rest = parts[1] if parts[0] in ("run1", "run2") and len(parts) > 1 else item
+    if "gaps/" in item:
+        return "windows with gaps (place_windows): " + item.split("gaps/")[1].split("/")[0]
+    if item.startswith("chk/"):
+        return item.split("/", 2)[2]
     if item.startswith("fixed/"):
         return "fixed-data forward/backward"
     if item.startswith("cat"):
@@ -202,8 +206,8 @@ def selfchecks(ctx, census):
 # ------------------------------------------------------------------------------------------------- supporting runs
 def compare_runs(ctx, cfgs, results, label):
     """cross-process / in-process / repetition comparisons; returns list of mismatch dicts (each replayable)"""
-    mism_cross, mism_rerun, mism_fixed, mism_vac = [], [], [], []
-    n_cross = n_rerun = n_fixed = 0
+    mism_cross, mism_rerun, mism_fixed, mism_vac, mism_chk = [], [], [], [], []
+    n_cross = n_rerun = n_fixed = n_chk = 0
     by_seed = {}
     for c, r in zip(cfgs, results):
         if "error" in r:
@@ -237,6 +241,12 @@ def compare_runs(ctx, cfgs, results, label):
                     n_rerun += 1
                     if A.get(k) != B.get(k):
                         mism_rerun.append({"runs": [c, c], "items": [pa + k, pb + k], "hashes": [A.get(k), B.get(k)]})
+            got, want = strip(r["items"], "chk/got/"), strip(r["items"], "chk/want/")
+            for k in sorted(set(got) | set(want)):
+                n_chk += 1
+                if got.get(k) != want.get(k):
+                    mism_chk.append({"runs": [c, c], "items": ["chk/got/" + k, "chk/want/" + k], "hashes": [got.get(k), want.get(k)],
+                                     "values": {"got": r.get("chk_values", {}).get("chk/got/" + k), "want": r.get("chk_values", {}).get("chk/want/" + k)}})
             f0 = strip(r["items"], "fixed/0/")
             for i in range(1, c["reps"]):
                 fi = strip(r["items"], "fixed/%d/" % i)
@@ -257,10 +267,15 @@ def compare_runs(ctx, cfgs, results, label):
     ctx.tie("%s: fixed data, forward/backward repeated" % label, "correspondence", n_fixed, n_fixed, mism_fixed,
             note="no randomness: diamond + batch-norm + losses + conv/pool graph rebuilt and differentiated N times per process "
                  "(and compared across processes by the first tie)")
+    ctx.tie("%s: direct statements (manual_seed(s) == np.random.seed(s); random.seed(s) on the first draws; positions no window covers are exact zeros)" % label,
+            "correspondence", n_chk, n_chk, mism_chk,
+            note="per process: first draws of both global generators after manual_seed(s) vs after seeding them directly (special seeds 0, 1, 2**32-1, 1337 included); "
+                 "gradients of pooling / forward of fold at positions not covered by any window (stride > dilated kernel extent) vs zeros, with junk (NaN / 1e30) of the "
+                 "buffers' sizes allocated and freed before every call")
     ctx.tie("%s: a different seed changes the random items (non-vacuity of the oracle)" % label, "correspondence",
             len(results[0].get("random_items", [])) if results and "error" not in results[0] else 0, len(seed_dependent), mism_vac,
             note="items the program flags as random must differ between seeds %s" % seeds[:2])
-    return mism_cross + mism_rerun + mism_fixed
+    return mism_chk + mism_fixed + mism_rerun + mism_cross
 
 
 def report_witnesses(ctx, mism, limit=3):
@@ -274,10 +289,10 @@ def report_witnesses(ctx, mism, limit=3):
             continue
         seen.add(site)
         a, b = m["runs"]
-        klass = "cross-process" if a is not b and a != b else ("fixed-repetition" if m["items"][0].startswith("fixed/") else "in-process-rerun")
+        klass = "direct-statement" if m["items"][0].startswith("chk/") else "cross-process" if a is not b and a != b else ("fixed-repetition" if m["items"][0].startswith("fixed/") else "in-process-rerun")
         ctx.witness(site, klass, {"runs": [a, b], "items": m["items"], "program": "lib/c19_program.py"},
                     "identical SHA-256 of (dtype, shape, bytes) for the same seed",
-                    {"hashes": m["hashes"]},
+                    {"hashes": m["hashes"], **({"values": m["values"]} if "values" in m else {})},
                     note="python lib/c19_program.py --seed S --perturb K --reps N --catalog C with PYTHONHASHSEED=H for each run; compare the two items")
         n += 1
         if n >= limit:
@@ -340,15 +355,18 @@ def run(ctx):
     # ---- self-checks -------------------------------------------------------------------------------------------------
     selfchecks(ctx, census)
     # ---- K: supporting runs ---------------------------------------------------------------------------------------------
+    special = [0, 1, 2 ** 32 - 1, 1337]          # falsy / boundary seeds: manual_seed must seed for every int in 0 .. 2**32-1
     if ctx.quick:
-        seeds = [ctx.rng.randrange(0, 2 ** 31) for _ in range(2)]
-        reps, catalog = 3, 0
+        seeds = [ctx.rng.randrange(2, 2 ** 31) for _ in range(2)]
+        reps, catalog = 4, 0
         hs = HASHSEEDS
+        cfgs = make_cfgs(ctx, seeds, hs, reps, catalog) + make_cfgs(ctx, special, ["0", "random"], 1, -1)
     else:
-        seeds = [0, 2 ** 32 - 1] + [ctx.rng.randrange(0, 2 ** 31) for _ in range(3)]
+        seeds = [ctx.rng.randrange(2, 2 ** 31) for _ in range(3)]
         reps, catalog = 8, 0
         hs = HASHSEEDS + ["2", "4294967295", "random", "random"]
-    cfgs = make_cfgs(ctx, seeds, hs, reps, catalog)
+        cfgs = make_cfgs(ctx, seeds, hs, reps, catalog) + make_cfgs(ctx, special, HASHSEEDS, 2, -1)
+    seeds = seeds + special
     ctx.log("self-checks done; running %d processes" % len(cfgs))
     results = run_configs(cfgs, par=16)
     ctx.log("processes done")
@@ -405,5 +423,7 @@ def replay(ctx, data):
     ha, hb = ra["items"].get(inp["items"][0]), rb["items"].get(inp["items"][1])
     print("run A %s item %s -> %s" % (a, inp["items"][0], ha))
     print("run B %s item %s -> %s" % (b, inp["items"][1], hb))
+    if inp["items"][0].startswith("chk/"):
+        print("values got ", ra.get("chk_values", {}).get(inp["items"][0])); print("values want", rb.get("chk_values", {}).get(inp["items"][1]))
     print("recorded", data["observed"])
     return 1 if ha != hb else 0
